@@ -54,9 +54,12 @@ def devset(devs):
     return "{" + ",".join(f'"{d}"' for d in devs) + "}"
 
 
-def open_devs():
+def open_devs(fam=None):
+    """Deviations of the open known findings (of one family: both confirmed defects carry the same deviation
+    name, the finding's key tells which component's model has to run with it)."""
+    keys = {k for (f, _c), k in SIGNATURE_KEYS.items() if fam is None or f == fam}
     return sorted({e["deviation"] for e in load_known().get("open", [])
-                   if e["property"] == PROP and e.get("deviation")})
+                   if e["property"] == PROP and e.get("deviation") and e["key"] in keys})
 
 
 def tla_bool(b):
@@ -252,7 +255,7 @@ def judge_tlc(F: Family, chunks=1):
     fam = F.fam
     if not F.traces:
         return None
-    devs = [d for d in open_devs() if d in MODEL_DEVS[fam]]      # the model of the code as it is
+    devs = [d for d in open_devs(fam) if d in MODEL_DEVS[fam]]      # the model of the code as it is
     v0, r0 = validate(fam, F.traces, devs, f"C19_trace_{fam}", chunks)
     return v0, r0, devs
 
